@@ -11,7 +11,7 @@ import importlib
 from .. import AnalysisError, AnchorMissing
 from ..cfg import cfg_of
 from ..model import own_nodes
-from ..values import pattern, match, find, find_all, contains, show, subterms
+from ..values import term_kwargs, pattern, match, find, find_all, contains, show, subterms
 from .base import obligation, src, callee_name
 from .C04 import pattern_term, returns, enclosing_loop, _inside
 
@@ -478,7 +478,7 @@ def c01_e(ctx):
     ok = False
     if st:
         v = ctx.term(so, st[0].value)
-        kws = dict(v[3]) if v[0] == 'call' else {}
+        kws = term_kwargs(v)
         ok = kws.get('n_sim') == ('const', 0) and kws.get('n_batches') == ('const', 0)
     ctx.check(ok, so, 'counters reset', 'n_sim = 0 and n_batches = 0 when an objective is set',
               'set_objective does not restart both counters from 0', fn=so,
@@ -520,7 +520,7 @@ def c01_f(ctx):
     if not ob:
         return
     v = ctx.term(so, ob[0].value)
-    kws = dict(v[3]) if v[0] == 'call' else {}
+    kws = term_kwargs(v)
     nb = kws.get('n_batches')
     if nb is None:
         ctx.undecided('objective has no n_batches entry')
